@@ -7,6 +7,7 @@ use ruma_common::api::{AuthScheme, MatrixVersion, Metadata, OutgoingRequest, Ver
 use serde_json::{json, Value};
 
 mod c17;
+mod c19api;
 mod synth;
 
 const ALL_VERSIONS: [MatrixVersion; 15] = [
@@ -236,6 +237,7 @@ fn main() {
             c17::run(&args[1..])
         }
         Some("c17seeds") => c17::seeds(),
+        Some("c19api") => c19api::run(),
         _ => {
             eprintln!("usage: vh-api select|subsets|real|wire|xmatrix");
             std::process::exit(2);
